@@ -1,5 +1,5 @@
 from .. import facts
-from ..rules import region
+from ..rules import region, deadcmp
 
 
 def run(ck):
@@ -18,3 +18,5 @@ def run(ck):
     region.r6_8_extents_before_data_is_dropped(ck, P, 'C07-R12')
     region.r7_11_limits_are_type_limits(ck, P)
     region.r7_13_or_trick_exactness(ck, P)
+    region.r7_14_running_extremes_independent(ck, P)
+    deadcmp.r_range_test_after_narrowing(ck, P, 'C07-R15', floor=40)
